@@ -19,7 +19,7 @@ import (
 
 type CaseTables struct {
 	vt.Env
-	Follow bool `json:",omitempty"` // also parse and check the cut-down follow-up feed (see followUp)
+	Follow  bool `json:",omitempty"` // also parse and check the cut-down follow-up feed (see followUp)
 	Tables  sgen.Tables
 	Inherit bool
 	Labels  []string `json:",omitempty"`
